@@ -9,6 +9,8 @@ import CC.Gen.Kernels
 import CC.ChaCha.Core
 import CC.ChaCha.Stream
 import CC.Drv.ChaCha
+import CC.ChaCha.Refine
+import CC.Lemmas.SrcGlue
 namespace CC.Src
 open CC.Simd CC.ChaCha
 
@@ -275,5 +277,692 @@ theorem src_chacha_get_stream_param (s : Guts) (param : BitVec 32) :
 theorem src_chacha_refill4 : Gen.Kernels.chacha_refill4 = Gen.Kernels.chacha_refill_wide_impl := rfl
 theorem src_chacha_refill : Gen.Kernels.chacha_refill = Gen.Kernels.chacha_refill_narrow := rfl
 theorem src_chacha_refill_rounds : Gen.Kernels.chacha_refill_rounds = Gen.Kernels.chacha_refill_narrow_rounds := rfl
+
+
+/-! ## phase 3: the glue of rustcrypto_impl.rs (tools/inventory_kernels_glue.py)
+
+  `seek64`, `seek32`, both `ChaChaAny::new`, `try_seek`, `try_current_pos`, `ChaChaAny::try_apply_keystream` (with the
+  IETF nonce-word restore) and the whole of `Buffer::try_apply_keystream` (lazy fill, overflow check with the early
+  `Err`, drain of the buffered bytes, the wide loop over `chunks_exact_mut(BUFSZ)`, the tail loop over
+  `chunks_mut(BLOCK)`, `self.have = have as i8`), regenerated from the source on every run.
+
+  The generated definitions compute on the fields of the Rust structs (`have: i8` ↦ `BitVec 8`, `len: u64` ↦
+  `BitVec 64`); the model (`CC.ChaCha.Stream`) uses `Int` / `Nat`.  `bufEnc` is the encoding; the obligations hold for
+  every buffer whose fields are in the range of their Rust types (and, for `try_apply_keystream` / `try_current_pos`,
+  satisfy the invariant `-64 < have ≤ 64` of the struct: outside it the model deliberately panics).  Panic messages
+  are not compared (`noMsg`). -/
+
+theorem ofNat_div64 (x : BitVec 64) : BitVec.ofNat 64 (x.toNat / 64) = x / 64#64 := by
+  apply BitVec.eq_of_toNat_eq
+  simp [BitVec.toNat_udiv]
+  omega
+
+theorem ofNat_mod64_8 (x : BitVec 64) : BitVec.ofNat 8 (x.toNat % 64) = BitVec.setWidth 8 (x % 64#64) := by
+  apply BitVec.eq_of_toNat_eq
+  simp [BitVec.toNat_umod]
+
+theorem ofInt_neg_nat (n : Nat) : BitVec.ofInt 8 (-(n : Int)) = -(BitVec.ofNat 8 n) := by
+  rw [BitVec.ofInt_neg]
+  simp
+
+theorem toInt_ne_min8 (x : BitVec 8) : (x.toInt ≠ -128) ↔ x ≠ 0x80#8 := by
+  constructor
+  · intro h e; subst e; exact h (by decide)
+  · intro h e; apply h; apply BitVec.eq_of_toInt_eq; rw [e]; decide
+
+theorem wsub64_ofNat (a b : Nat) (ha : a < 2^64) : BitVec.ofNat 64 (wsub64 a b) = BitVec.ofNat 64 a - BitVec.ofNat 64 b := by
+  apply BitVec.eq_of_toNat_eq
+  simp [wsub64, BitVec.toNat_sub]
+  omega
+
+theorem div64_beq_zero (x : BitVec 64) : (x / 64#64 == 0#64) = (x.toNat / 64 == 0) := by
+  rw [Bool.eq_iff_iff]; simp [← BitVec.toNat_inj, BitVec.toNat_udiv]
+
+/-- `-((ct % BLOCK64) as i8)` cannot overflow (stated without a `Profile` in the context: `bv_decide` would otherwise
+    declare its enum encoding of `Profile` here as well as in other modules) -/
+theorem neg_guard_mod64 (ct : BitVec 64) : decide ((BitVec.setWidth 8 (ct % 64#64)).toInt ≠ -128) = true := by
+  rw [decide_eq_true_iff, toInt_ne_min8]; bv_decide
+
+/-- the fields of the Rust `Buffer` as the generated definitions take / return them -/
+def bufEnc (b : Buffer) : BitVec 128 × BitVec 128 × BitVec 128 × List (BitVec 8) × BitVec 8 × BitVec 64 × Bool :=
+  (b.state.b, b.state.c, b.state.d, b.out, BitVec.ofInt 8 b.hav, BitVec.ofNat 64 b.len, b.fresh)
+
+theorem src_chacha_buffer_seek64 (M : Mach) (p : Profile) (b : Buffer) (ct : BitVec 64) :
+    Gen.Kernels.chacha_buffer_seek64 M p b.state.b b.state.c b.state.d b.out (BitVec.ofInt 8 b.hav)
+        (BitVec.ofNat 64 b.len) b.fresh ct
+      = .ok (bufEnc (Buffer.seek64 M b ct.toNat)) := by
+  have hg := neg_guard_mod64 ct
+  simp only [Gen.Kernels.chacha_buffer_seek64, hg, Bool.true_eq_false, and_false, if_false, bufEnc, Buffer.seek64,
+    src_chacha_seek64, gutsOf, ofNat_div64, ofInt_neg_nat, ofNat_mod64_8, BIG_LEN, wsub64_ofNat 0 _ (by decide)]
+  rw [div64_beq_zero]
+
+theorem seek32_cond (ct : BitVec 64) :
+    ((ct / 64#64).ult 4294967296#64 || ct / 64#64 == 4294967296#64 && ct % 64#64 == 0#64)
+      = decide (ct.toNat / 64 < 2 ^ 32 ∨ ct.toNat / 64 = 2 ^ 32 ∧ ct.toNat % 64 = 0) := by
+  rw [Bool.eq_iff_iff]
+  simp [BitVec.ult, ← BitVec.toNat_inj, BitVec.toNat_udiv, BitVec.toNat_umod]
+
+theorem setWidth32_div64 (ct : BitVec 64) : BitVec.setWidth 32 (ct / 64#64) = BitVec.ofNat 32 (ct.toNat / 64) := by
+  apply BitVec.eq_of_toNat_eq
+  simp [BitVec.toNat_udiv]
+
+theorem seek32_h2 (ct : BitVec 64) (hc : ct.toNat / 64 < 2 ^ 32 ∨ ct.toNat / 64 = 2 ^ 32 ∧ ct.toNat % 64 = 0) :
+    decide ((ct / 64#64).toNat ≤ (4294967296#64).toNat) = true := by
+  simp [BitVec.toNat_udiv]; omega
+
+theorem seek32_h3 (ct : BitVec 64) (hc : ct.toNat / 64 < 2 ^ 32 ∨ ct.toNat / 64 = 2 ^ 32 ∧ ct.toNat % 64 = 0) :
+    BitVec.ofNat 64 (2 ^ 32 - ct.toNat / 64) = 4294967296#64 - ct / 64#64 := by
+  have h : ct.toNat / 64 ≤ 2 ^ 32 := by omega
+  apply BitVec.eq_of_toNat_eq
+  rw [BitVec.toNat_sub, BitVec.toNat_udiv, BitVec.toNat_ofNat, BitVec.toNat_ofNat, BitVec.toNat_ofNat]
+  generalize ct.toNat / 64 = x at h ⊢
+  omega
+
+theorem src_chacha_buffer_seek32 (M : Mach) (p : Profile) (b : Buffer) (ct : BitVec 64) :
+    noMsg (Gen.Kernels.chacha_buffer_seek32 M p b.state.b b.state.c b.state.d b.out (BitVec.ofInt 8 b.hav)
+        (BitVec.ofNat 64 b.len) b.fresh ct)
+      = noMsg (Buffer.seek32 M b ct.toNat >>= fun b' => .ok (bufEnc b')) := by
+  have hg := neg_guard_mod64 ct
+  simp only [Gen.Kernels.chacha_buffer_seek32, hg, Bool.true_eq_false, and_false, if_false, bufEnc, Buffer.seek32,
+    src_chacha_seek32, gutsOf, SMALL_LEN, seek32_cond, setWidth32_div64]
+  by_cases hc : ct.toNat / 64 < 2 ^ 32 ∨ ct.toNat / 64 = 2 ^ 32 ∧ ct.toNat % 64 = 0
+  · simp only [hc, decide_true, Bool.true_eq_false, if_false, seek32_h2 ct hc, and_false, if_true, Out.bind_ok,
+      ofInt_neg_nat, ofNat_mod64_8, seek32_h3 ct hc]
+  · simp only [hc, decide_false, if_true, if_false]
+    rfl
+
+/-! ### constructors -/
+
+theorem src_chacha_any_new_8 (M : Mach) (dr : Nat) (key nonce : List (BitVec 8)) (h : nonce.length = 8) :
+    bufEnc (Cipher.new M ⟨.djb, dr⟩ key nonce).buf = Gen.Kernels.chacha_any_new_8 M key nonce := by
+  simp [Cipher.new, bufEnc, Gen.Kernels.chacha_any_new_8, src_chacha_init_chacha_8 M key nonce h, gutsOf, h, zeros,
+    BIG_LEN]
+
+theorem src_chacha_any_new_12 (M : Mach) (dr : Nat) (key nonce : List (BitVec 8)) (h : nonce.length = 12) :
+    bufEnc (Cipher.new M ⟨.ietf, dr⟩ key nonce).buf = Gen.Kernels.chacha_any_new_12 M key nonce := by
+  simp [Cipher.new, bufEnc, Gen.Kernels.chacha_any_new_12, src_chacha_init_chacha_12 M key nonce h, gutsOf, h, zeros,
+    SMALL_LEN]
+
+theorem src_chacha_any_new_x (M : Mach) (dr : BitVec 32) (key nonce : List (BitVec 8)) :
+    bufEnc (Cipher.new M ⟨.x, dr.toNat⟩ key nonce).buf = Gen.Kernels.chacha_any_new_x M key nonce dr := by
+  simp [Cipher.new, bufEnc, Gen.Kernels.chacha_any_new_x, src_chacha_init_chacha_x M key nonce dr, gutsOf, zeros,
+    BIG_LEN]
+
+/-! ### `try_seek`, `try_current_pos` -/
+
+theorem seek32_ne_err (M : Mach) (b : Buffer) (ct : Nat) : Buffer.seek32 M b ct ≠ .err := by
+  unfold Buffer.seek32; simp only []; split <;> simp
+
+/-- the named primitive `pos.try_into()` (`T: SeekNum`, target `u64`) on the value `pos` of `T` -/
+def tryIntoU64 (pos : Int) : Option (BitVec 64) :=
+  if pos < 0 ∨ pos.toNat ≥ 2 ^ 64 then none else some (BitVec.ofNat 64 pos.toNat)
+
+theorem src_chacha_any_try_seek_12 (M : Mach) (p : Profile) (c : Cipher) (hl : c.v.layout = .ietf) (pos : Int) :
+    noMsg (Gen.Kernels.chacha_any_try_seek_12 M p c.buf.state.b c.buf.state.c c.buf.state.d c.buf.out
+        (BitVec.ofInt 8 c.buf.hav) (BitVec.ofNat 64 c.buf.len) c.buf.fresh (tryIntoU64 pos))
+      = noMsg (Cipher.trySeek M c pos >>= fun r => .ok (r.2, bufEnc r.1.buf)) := by
+  unfold Gen.Kernels.chacha_any_try_seek_12 Cipher.trySeek tryIntoU64
+  by_cases h0 : pos < 0 ∨ pos.toNat ≥ 2 ^ 64
+  · simp [h0, bufEnc, noMsg]
+  · simp only [h0, if_false, hl, Option.isSome_some, Bool.not_true, Option.getD_some]
+    have hlt : pos.toNat < 2 ^ 64 := by omega
+    have hnat : (BitVec.ofNat 64 pos.toNat).toNat = pos.toNat := by
+      rw [BitVec.toNat_ofNat]; exact Nat.mod_eq_of_lt hlt
+    have hcmp : BitVec.ult 274877906944#64 (BitVec.ofNat 64 pos.toNat) = decide (pos.toNat > SMALL_LEN * 64) := by
+      rw [Bool.eq_iff_iff]; simp [BitVec.ult, hnat, SMALL_LEN]
+    rw [hcmp]
+    by_cases h1 : pos.toNat > SMALL_LEN * 64
+    · simp [h1, bufEnc, noMsg]
+    · simp only [h1, decide_false, Bool.false_eq_true, if_false, Bool.false_eq_true]
+      rw [← outOk_noMsg, ← outGet_noMsg, src_chacha_buffer_seek32, hnat]
+      cases hs : Buffer.seek32 M c.buf pos.toNat with
+      | ok b' => rfl
+      | panic w => rfl
+      | err => exact absurd hs (seek32_ne_err M c.buf pos.toNat)
+
+theorem trySeek_non_ietf (M : Mach) (c : Cipher) (hl : c.v.layout ≠ .ietf) (pos : Int) :
+    Cipher.trySeek M c pos =
+      if pos < 0 ∨ pos.toNat ≥ 2 ^ 64 then .ok (c, false)
+      else .ok ({ c with buf := Buffer.seek64 M c.buf pos.toNat }, true) := by
+  unfold Cipher.trySeek
+  split
+  · rfl
+  · cases h : c.v.layout <;> simp_all
+
+theorem src_chacha_any_try_seek_8 (M : Mach) (p : Profile) (c : Cipher) (hl : c.v.layout ≠ .ietf) (pos : Int) :
+    Gen.Kernels.chacha_any_try_seek_8 M p c.buf.state.b c.buf.state.c c.buf.state.d c.buf.out
+        (BitVec.ofInt 8 c.buf.hav) (BitVec.ofNat 64 c.buf.len) c.buf.fresh (tryIntoU64 pos)
+      = (Cipher.trySeek M c pos >>= fun r => .ok (r.2, bufEnc r.1.buf)) := by
+  rw [trySeek_non_ietf M c hl]
+  unfold Gen.Kernels.chacha_any_try_seek_8 tryIntoU64
+  by_cases h0 : pos < 0 ∨ pos.toNat ≥ 2 ^ 64
+  · simp [h0, bufEnc]
+  · have hlt : pos.toNat < 2 ^ 64 := by omega
+    have hnat : (BitVec.ofNat 64 pos.toNat).toNat = pos.toNat := by
+      rw [BitVec.toNat_ofNat]; exact Nat.mod_eq_of_lt hlt
+    simp only [h0, if_false, Option.isSome_some, Bool.not_true, Option.getD_some, src_chacha_buffer_seek64, hnat]
+    rfl
+
+theorem src_chacha_any_try_seek_24 (M : Mach) (p : Profile) (c : Cipher) (hl : c.v.layout ≠ .ietf) (pos : Int) :
+    Gen.Kernels.chacha_any_try_seek_24 M p c.buf.state.b c.buf.state.c c.buf.state.d c.buf.out
+        (BitVec.ofInt 8 c.buf.hav) (BitVec.ofNat 64 c.buf.len) c.buf.fresh (tryIntoU64 pos)
+      = (Cipher.trySeek M c pos >>= fun r => .ok (r.2, bufEnc r.1.buf)) :=
+  src_chacha_any_try_seek_8 M p c hl pos
+
+/-- the named primitive `T::from_block_byte(block, byte, bs)` (`bs` is `BLOCK as u8`) as the model writes it -/
+def fromBlockByteP (t : SeekTy) (block : BitVec 128) (byte bs : BitVec 8) : Option Nat :=
+  if bs = 64#8 then fromBlockByte t block.toNat byte.toNat else none
+
+theorem ofNat64_beq_zero (n : Nat) (h : n < 2 ^ 64) : (BitVec.ofNat 64 n == 0#64) = (n == 0) := by
+  rw [Bool.eq_iff_iff]; simp [← BitVec.toNat_inj, Nat.mod_eq_of_lt h]
+
+theorem blocks_toNat (total len : Nat) (ht : total < 2 ^ 64) (h3 : len < 2 ^ 64) (c : Bool) :
+    (if c = true then 18446744073709551616#128
+      else BitVec.setWidth 128 (BitVec.ofNat 64 total - BitVec.ofNat 64 len)).toNat
+      = (if c = true then 2 ^ 64 else wsub64 total len) := by
+  cases c
+  · simp only [Bool.false_eq_true, if_false, BitVec.toNat_setWidth, BitVec.toNat_sub, BitVec.toNat_ofNat, wsub64]
+    omega
+  · simp
+
+theorem sub_one_toNat128 (B : BitVec 128) : (B - 1#128).toNat = if B.toNat = 0 then 2 ^ 128 - 1 else B.toNat - 1 := by
+  rw [BitVec.toNat_sub]
+  have := B.isLt
+  split <;> simp <;> omega
+
+/-- the part of `try_current_pos` after `blocks` has been computed: generated shape vs. model shape -/
+theorem current_pos_core (p : Profile) (t : SeekTy) (hav : Int) (h1 : -128 < hav) (h2 : hav ≤ 64) (B : BitVec 128) :
+    noMsg
+      (if p = Profile.debug ∧ decide (0 < hav) = true ∧ decide ((1#128).toNat ≤ B.toNat) = false then
+        (Out.panic "attempt to subtract with overflow" : Out (Option Nat))
+      else if p = Profile.debug ∧ decide (0 < hav) = true ∧
+            decide ((BitVec.ofInt 8 hav).toNat ≤ (64#8).toNat) = false then
+        Out.panic "attempt to subtract with overflow"
+      else if p = Profile.debug ∧ decide (0 < hav) = false ∧ decide ((BitVec.ofInt 8 hav).toInt ≠ -128) = false then
+        Out.panic "attempt to negate with overflow"
+      else
+        Out.ok (if decide (0 < hav) = true then fromBlockByteP t (B - 1#128) (64#8 - BitVec.ofInt 8 hav) 64#8
+                else fromBlockByteP t B (-BitVec.ofInt 8 hav) 64#8)) =
+    noMsg
+      (if hav > 0 then
+        if B.toNat = 0 then
+          match p with
+          | Profile.debug => Out.panic "attempt to subtract with overflow"
+          | Profile.release => Out.ok (fromBlockByte t (2 ^ 128 - 1) (64 - hav.toNat))
+        else if hav > 64 then Out.panic "attempt to subtract with overflow"
+        else Out.ok (fromBlockByte t (B.toNat - 1) (64 - hav.toNat))
+      else Out.ok (fromBlockByte t B.toNat (-hav).toNat)) := by
+  by_cases hp : 0 < hav
+  · have e1 : (BitVec.ofInt 8 hav).toNat = hav.toNat := toNat_ofInt8_nonneg _ (by omega) (by omega)
+    have e2 := toNat_64_sub_ofInt8 _ hp h2
+    have e3 : ¬ hav > 64 := by omega
+    simp only [hp, decide_true, true_and, e1, gt_iff_lt, e3, if_false, if_true, Bool.true_eq_false, false_and, and_false,
+      fromBlockByteP, e2, sub_one_toNat128]
+    by_cases hz : B.toNat = 0
+    · cases p <;> simp [hz, noMsg]
+    · have : hav.toNat ≤ 64 := by omega
+      cases p <;> simp [hz, noMsg, this] <;> omega
+  · have e1 := toNat_neg_ofInt8 _ h1 (by omega : hav ≤ 0)
+    have e2 : (BitVec.ofInt 8 hav).toInt = hav := toInt_ofInt8 _ (by omega) (by omega)
+    have e3 : ¬ hav > 0 := by omega
+    have e4 : hav ≠ -128 := by omega
+    simp [hp, e1, e2, e4, fromBlockByteP, noMsg]
+
+theorem src_chacha_any_try_current_pos_8 (p : Profile) (c : Cipher) (hl : c.v.layout ≠ .ietf)
+    (h1 : -128 < c.buf.hav) (h2 : c.buf.hav ≤ 64) (h3 : c.buf.len < 2 ^ 64) (t : SeekTy) :
+    noMsg (Gen.Kernels.chacha_any_try_current_pos_8 (fromBlockByteP t) p c.buf.state.b c.buf.state.c c.buf.state.d
+        c.buf.out (BitVec.ofInt 8 c.buf.hav) (BitVec.ofNat 64 c.buf.len) c.buf.fresh)
+      = noMsg (Cipher.tryCurrentPos p c t) := by
+  unfold Gen.Kernels.chacha_any_try_current_pos_8 Cipher.tryCurrentPos
+  have hlay : (match c.v.layout with | .ietf => SMALL_LEN | _ => BIG_LEN) = BIG_LEN := by
+    cases h : c.v.layout <;> simp_all
+  have hne : (c.v.layout != .ietf) = true := by simpa using hl
+  have hB := blocks_toNat BIG_LEN c.buf.len (by decide) h3 (c.buf.len == 0 && !c.buf.fresh)
+  rw [show BitVec.ofNat 64 BIG_LEN = 0#64 from rfl] at hB
+  simp only [hne, Bool.true_and, slt_zero_ofInt8 _ (by omega : -128 ≤ c.buf.hav) (by omega : c.buf.hav < 128),
+    ofNat64_beq_zero _ h3, ← hB]
+  exact current_pos_core p t c.buf.hav h1 h2 _
+
+theorem src_chacha_any_try_current_pos_24 (p : Profile) (c : Cipher) (hl : c.v.layout ≠ .ietf)
+    (h1 : -128 < c.buf.hav) (h2 : c.buf.hav ≤ 64) (h3 : c.buf.len < 2 ^ 64) (t : SeekTy) :
+    noMsg (Gen.Kernels.chacha_any_try_current_pos_24 (fromBlockByteP t) p c.buf.state.b c.buf.state.c c.buf.state.d
+        c.buf.out (BitVec.ofInt 8 c.buf.hav) (BitVec.ofNat 64 c.buf.len) c.buf.fresh)
+      = noMsg (Cipher.tryCurrentPos p c t) :=
+  src_chacha_any_try_current_pos_8 p c hl h1 h2 h3 t
+
+theorem src_chacha_any_try_current_pos_12 (p : Profile) (c : Cipher) (hl : c.v.layout = .ietf)
+    (h1 : -128 < c.buf.hav) (h2 : c.buf.hav ≤ 64) (h3 : c.buf.len < 2 ^ 64) (t : SeekTy) :
+    noMsg (Gen.Kernels.chacha_any_try_current_pos_12 (fromBlockByteP t) p c.buf.state.b c.buf.state.c c.buf.state.d
+        c.buf.out (BitVec.ofInt 8 c.buf.hav) (BitVec.ofNat 64 c.buf.len) c.buf.fresh)
+      = noMsg (Cipher.tryCurrentPos p c t) := by
+  unfold Gen.Kernels.chacha_any_try_current_pos_12 Cipher.tryCurrentPos
+  have hB := blocks_toNat SMALL_LEN c.buf.len (by unfold SMALL_LEN; omega) h3 false
+  simp only [Bool.false_eq_true, if_false] at hB
+  rw [show BitVec.ofNat 64 SMALL_LEN = 4294967296#64 from by simp [SMALL_LEN]] at hB
+  simp only [hl, bne_self_eq_false, Bool.false_and, Bool.false_eq_true, if_false,
+    slt_zero_ofInt8 _ (by omega : -128 ≤ c.buf.hav) (by omega : c.buf.hav < 128), ← hB]
+  exact current_pos_core p t c.buf.hav h1 h2 _
+
+/-! ### `Buffer::try_apply_keystream` -/
+
+/-- what the tie needs of the machine: the block outputs have their lengths (true of `Mach.ref`, hence of every backend) -/
+structure BlockLens (M : Mach) : Prop where
+  refill : ∀ s dr, (refill M s dr).1.length = 64
+  refill4 : ∀ s dr, (refill4 M s dr).1.length = 256
+
+theorem loop1_eq (M : Mach) (hM : BlockLens M) (dr : BitVec 32) (s : Guts)
+    (rest : List (BitVec 8) × BitVec 8 × BitVec 64 × Bool) (dd : List (BitVec 8)) (hdd : dd.length ≤ 256) :
+    Gen.Kernels.chacha_buffer_try_apply_keystream_loop1 M dr (s.b, s.c, s.d, rest) dd
+      = (((wideStep M dr.toNat s dd).1.b, (wideStep M dr.toNat s dd).1.c, (wideStep M dr.toNat s dd).1.d, rest),
+         (wideStep M dr.toNat s dd).2) := by
+  have h4 := src_chacha_refill_wide_impl M s dr (List.replicate 256 0#8)
+  simp only [Gen.Kernels.chacha_buffer_try_apply_keystream_loop1, wideStep, src_chacha_refill4]
+  rw [h4]
+  simp only [gutsOf]
+  rw [xorInto_eq_xorBytes]
+  have := hM.refill4 s dr.toNat
+  rw [h4] at this
+  simp only at this
+  omega
+
+theorem loop2_eq (M : Mach) (hM : BlockLens M) (dr : BitVec 32) (s : Guts) (out : List (BitVec 8))
+    (hv : BitVec 8) (len : BitVec 64) (fresh : Bool) (have_ : Nat) (dd : List (BitVec 8)) (hdd : dd.length ≤ 64) :
+    Gen.Kernels.chacha_buffer_try_apply_keystream_loop2 M dr (s.b, s.c, s.d, out, hv, len, fresh, have_) dd
+      = (((tailStep M dr.toNat s dd).1.1.b, (tailStep M dr.toNat s dd).1.1.c, (tailStep M dr.toNat s dd).1.1.d,
+          (tailStep M dr.toNat s dd).1.2.1, hv, len, fresh, (tailStep M dr.toNat s dd).1.2.2),
+         (tailStep M dr.toNat s dd).2) := by
+  have h4 := src_chacha_refill_narrow M s dr out
+  simp only [Gen.Kernels.chacha_buffer_try_apply_keystream_loop2, tailStep, src_chacha_refill]
+  rw [h4]
+  simp only [gutsOf]
+  rw [xorInto_eq_xorBytes]
+  have := hM.refill s dr.toNat
+  rw [h4] at this
+  simp only at this
+  omega
+
+open Gen.Kernels in
+/-- the wide loop: `forChunksExactMut 256` of the generated body over `256·n` bytes = the model's `wideLoop` -/
+theorem wide_tie (M : Mach) (hM : BlockLens M) (dr : BitVec 32)
+    (rest : List (BitVec 8) × BitVec 8 × BitVec 64 × Bool) :
+    ∀ (n fuel : Nat) (s : Guts) (d : List (BitVec 8)), d.length = 256 * n → n ≤ fuel →
+      forChunksExactMutAux 256 (chacha_buffer_try_apply_keystream_loop1 M dr) fuel (s.b, s.c, s.d, rest) d
+        = (((wideLoop M dr.toNat n s d).2.b, (wideLoop M dr.toNat n s d).2.c, (wideLoop M dr.toNat n s d).2.d, rest),
+           (wideLoop M dr.toNat n s d).1) := by
+  intro n
+  induction n with
+  | zero =>
+    intro fuel s d hd _
+    have : d = [] := List.eq_nil_of_length_eq_zero (by omega)
+    subst this
+    cases fuel <;> simp [forChunksExactMutAux, wideLoop]
+  | succ n ih =>
+    intro fuel s d hd hf
+    cases fuel with
+    | zero => omega
+    | succ fuel =>
+      have hc : 256 ≤ d.length ∧ 0 < 256 := by omega
+      have hdrop : (d.drop 256).length = 256 * n := by simp; omega
+      have htake : (d.take 256).length ≤ 256 := by simp; omega
+      simp only [forChunksExactMutAux, hc, and_self, if_true, loop1_eq M hM dr s rest _ htake, wideLoop_succ]
+      rw [ih fuel _ _ hdrop (by omega)]
+
+open Gen.Kernels in
+/-- the tail loop: `forChunksMut 64` of the generated body = the model's `tailLoop` -/
+theorem tail_tie (M : Mach) (hM : BlockLens M) (dr : BitVec 32) (hv : BitVec 8) (len : BitVec 64) (fresh : Bool) :
+    ∀ (fuel : Nat) (s : Guts) (d out : List (BitVec 8)) (have_ : Nat) (mfuel : Nat), d.length ≤ fuel → d.length ≤ 64 * mfuel →
+      forChunksMutAux 64 (chacha_buffer_try_apply_keystream_loop2 M dr) fuel (s.b, s.c, s.d, out, hv, len, fresh, have_) d
+        = (((tailLoop M dr.toNat mfuel s d out have_).2.1.b, (tailLoop M dr.toNat mfuel s d out have_).2.1.c,
+            (tailLoop M dr.toNat mfuel s d out have_).2.1.d, (tailLoop M dr.toNat mfuel s d out have_).2.2.1,
+            hv, len, fresh, (tailLoop M dr.toNat mfuel s d out have_).2.2.2),
+           (tailLoop M dr.toNat mfuel s d out have_).1) := by
+  intro fuel
+  induction fuel with
+  | zero =>
+    intro s d out have_ mfuel hd _
+    have : d = [] := List.eq_nil_of_length_eq_zero (by omega)
+    subst this
+    cases mfuel <;> simp [forChunksMutAux, tailLoop]
+  | succ fuel ih =>
+    intro s d out have_ mfuel hd hm
+    cases d with
+    | nil => cases mfuel <;> simp [forChunksMutAux, tailLoop]
+    | cons x xs =>
+      cases mfuel with
+      | zero => simp at hm
+      | succ mfuel =>
+        have hc : 0 < (x :: xs).length ∧ 0 < 64 := by simp
+        have htake : ((x :: xs).take 64).length ≤ 64 := by simp; omega
+        have hdrop : ((x :: xs).drop 64).length ≤ fuel := by simp at hd ⊢; omega
+        have hdrop2 : ((x :: xs).drop 64).length ≤ 64 * mfuel := by simp at hm ⊢; omega
+        simp only [forChunksMutAux, hc, and_self, if_true, loop2_eq M hM dr s out hv len fresh have_ _ htake,
+          tailLoop_cons]
+        rw [ih _ _ _ _ mfuel hdrop hdrop2]
+
+theorem signExtend_ofInt8_toNat (i : Int) (h1 : 0 ≤ i) (h2 : i < 128) :
+    (BitVec.signExtend 64 (BitVec.ofInt 8 i)).toNat = i.toNat := by
+  have h := toInt_ofInt8 i (by omega) h2
+  have h3 : (BitVec.signExtend 64 (BitVec.ofInt 8 i)).toInt = i := by
+    rw [BitVec.toInt_signExtend_of_le (by omega)]; exact h
+  rw [BitVec.toInt_eq_toNat_cond] at h3
+  have := (BitVec.signExtend 64 (BitVec.ofInt 8 i)).isLt
+  split at h3 <;> omega
+
+theorem blocks_bv (x : Nat) (hx : x < 2 ^ 64) :
+    BitVec.ofNat 64 x / 64#64 + (if (BitVec.ofNat 64 x % 64#64 != 0#64) = true then 1#64 else 0#64)
+      = BitVec.ofNat 64 (x / 64 + if (x % 64 != 0) = true then 1 else 0) := by
+  apply BitVec.eq_of_toNat_eq
+  have e : (BitVec.ofNat 64 x).toNat = x := by rw [BitVec.toNat_ofNat]; exact Nat.mod_eq_of_lt hx
+  by_cases h : x % 64 = 0
+  · have : (BitVec.ofNat 64 x % 64#64 != 0#64) = false := by
+      simp [← BitVec.toNat_inj, BitVec.toNat_umod, e, h]
+    simp only [this, h, bne_self_eq_false, Bool.false_eq_true, if_false, BitVec.toNat_add, BitVec.toNat_udiv, e,
+      BitVec.toNat_ofNat]
+  · have : (BitVec.ofNat 64 x % 64#64 != 0#64) = true := by
+      simp [← BitVec.toNat_inj, BitVec.toNat_umod, e, h]
+    have h' : (x % 64 != 0) = true := by simp [h]
+    simp only [this, h', if_true, BitVec.toNat_add, BitVec.toNat_udiv, e, BitVec.toNat_ofNat]
+
+theorem land_mask256 (x : Nat) (hx : x < 2 ^ 64) : x &&& 18446744073709551360 = 256 * (x / 256) := by
+  have h : (BitVec.ofNat 64 x &&& 18446744073709551360#64) = (BitVec.ofNat 64 x >>> 8) <<< 8 := by bv_decide
+  have e : (BitVec.ofNat 64 x).toNat = x := by rw [BitVec.toNat_ofNat]; exact Nat.mod_eq_of_lt hx
+  have h2 := congrArg BitVec.toNat h
+  rw [BitVec.toNat_and, e] at h2
+  rw [show (18446744073709551360#64).toNat = 18446744073709551360 from rfl] at h2
+  rw [h2, BitVec.toNat_shiftLeft, BitVec.toNat_ushiftRight, e, Nat.shiftLeft_eq, Nat.shiftRight_eq_div_pow]
+  have : x / 2 ^ 8 * 2 ^ 8 < 2 ^ 64 := by omega
+  rw [Nat.mod_eq_of_lt this]
+  omega
+
+theorem wideLoop_take (M : Mach) (dr : Nat) : ∀ (n : Nat) (s : Guts) (d : List (BitVec 8)),
+    wideLoop M dr n s (d.take (256 * n)) = wideLoop M dr n s d := by
+  intro n
+  induction n with
+  | zero => intro s d; rfl
+  | succ n ih =>
+    intro s d
+    rw [wideLoop_succ, wideLoop_succ]
+    have e1 : (d.take (256 * (n + 1))).take 256 = d.take 256 := by
+      rw [List.take_take]; congr 1
+    have e2 : (d.take (256 * (n + 1))).drop 256 = (d.drop 256).take (256 * n) := by
+      rw [List.drop_take]
+      have : 256 * (n + 1) - 256 = 256 * n := by omega
+      rw [this]
+    rw [e1, e2, ih]
+
+/-- the result of `Buffer::try_apply_keystream` as the generated definition returns it: `Ok`/`Err`, the fields of
+    `self`, the caller's `data` -/
+def applyEnc (data : List (BitVec 8)) (r : Buffer × Option (List (BitVec 8))) :
+    Bool × BitVec 128 × BitVec 128 × BitVec 128 × List (BitVec 8) × BitVec 8 × BitVec 64 × Bool × List (BitVec 8) :=
+  (r.2.isSome, r.1.state.b, r.1.state.c, r.1.state.d, r.1.out, BitVec.ofInt 8 r.1.hav, BitVec.ofNat 64 r.1.len,
+   r.1.fresh, r.2.getD data)
+
+theorem lazyFill_facts (M : Mach) (hM : BlockLens M) (dr : Nat) (b : Buffer) (hb1 : -64 < b.hav) (hb2 : b.hav ≤ 64)
+    (hb3 : b.len < 2 ^ 64) (hb4 : b.out.length = 64) :
+    0 ≤ (b.lazyFill M dr).hav ∧ (b.lazyFill M dr).hav ≤ 64 ∧ (b.lazyFill M dr).len < 2 ^ 64 ∧
+      (b.lazyFill M dr).out.length = 64 ∧ (b.lazyFill M dr).fresh = b.fresh := by
+  unfold Buffer.lazyFill
+  by_cases h : b.hav < 0
+  · simp only [h, if_true, hM.refill, wsub64]
+    refine ⟨by omega, by omega, ?_, trivial, trivial⟩
+    omega
+  · simp only [h, if_false]
+    exact ⟨by omega, hb2, hb3, hb4, trivial⟩
+
+theorem src_chacha_buffer_try_apply_keystream (M : Mach) (hM : BlockLens M) (p : Profile) (dr : BitVec 32)
+    (b : Buffer) (hb1 : -64 < b.hav) (hb2 : b.hav ≤ 64) (hb3 : b.len < 2 ^ 64) (hb4 : b.out.length = 64)
+    (data : List (BitVec 8)) (hd : data.length < 2 ^ 63) :
+    Gen.Kernels.chacha_buffer_try_apply_keystream M p b.state.b b.state.c b.state.d b.out (BitVec.ofInt 8 b.hav)
+        (BitVec.ofNat 64 b.len) b.fresh data dr
+      = (Buffer.tryApply M p dr.toNat b data >>= fun r => .ok (applyEnc data r)) := by
+  rw [Buffer.tryApply_eq]
+  obtain ⟨f1, f2, f3, f4, f5⟩ := lazyFill_facts M hM dr.toNat b hb1 hb2 hb3 hb4
+  unfold Gen.Kernels.chacha_buffer_try_apply_keystream
+  extract_lets t1 t2 t3 t4 t5 t6 t7 t8 t9 t10 t11 t12 t13 t14 t15 t16 t17 t18 t19 t20 t21 t22 t23 t24 t25 t26 t27 t28
+    t29 t30 t31 t32 t33 t34 t35 t36 t37 t38 t39 t40 t41 t42 t43 t44 t45 t46 t47 t48 t49 t50 t51 t52 t53 t54 t55 t56
+    t57 t58 t59 t60 t61 t62 t63 t64 t65 t66 t67 t68 t69 t70 t71 t72 t73 t74 t75 t76 t77 t78 t79 t80
+  generalize hb1' : b.lazyFill M dr.toNat = b1 at f1 f2 f3 f4 f5 ⊢
+  have h2 : t2 = decide (b.hav < 0) := ofInt8_slt_zero _ (by omega) (by omega)
+  -- the lazy fill
+  have hlazy : (t29, t31, t33, t35, t9, t5) =
+      (b1.state.b, b1.state.c, b1.state.d, b1.out, BitVec.ofInt 8 b1.hav, BitVec.ofNat 64 b1.len) := by
+    subst hb1'
+    simp only [t29, t31, t33, t35, t9, t5, t28, t30, t32, t34, t27, t8, t4, h2, Buffer.lazyFill, src_chacha_refill]
+    by_cases h : b.hav < 0
+    · simp only [h, decide_true, if_true, src_chacha_refill_narrow M b.state dr b.out, gutsOf]
+      rw [BitVec.ofInt_add, wsub64_ofNat _ _ hb3]
+      rfl
+    · simp only [h, decide_false, Bool.false_eq_true, if_false]
+  obtain ⟨e29, e31, e33, e35, e9, e5⟩ := Prod.mk.inj hlazy |>.imp id (fun h => Prod.mk.inj h |>.imp id
+    (fun h => Prod.mk.inj h |>.imp id (fun h => Prod.mk.inj h |>.imp id (fun h => Prod.mk.inj h))))
+  have e10 : t10 = b1.hav.toNat := by
+    simp only [t10, e9]; exact signExtend_ofInt8_toNat _ f1 (by omega)
+  have e11 : t11 = min b1.hav.toNat data.length := by simp only [t11, e10, t6]
+  have e12 : t12 = data.length - min b1.hav.toNat data.length := by simp only [t12, e11, t6]
+  have hbn : blocksNeeded b1.hav.toNat data.length < 2 ^ 63 := by
+    unfold blocksNeeded; split <;> omega
+  have e20 : t20 = BitVec.ofNat 64 (blocksNeeded b1.hav.toNat data.length) := by
+    simp only [t20, t19, t18, t16, t15, t14, t13, t17]
+    rw [blocks_bv t12 (by omega), e12]; rfl
+  have e20n : t20.toNat = blocksNeeded b1.hav.toNat data.length := by
+    rw [e20, BitVec.toNat_ofNat]; exact Nat.mod_eq_of_lt (by omega)
+  have e5n : t5.toNat = b1.len := by
+    rw [e5, BitVec.toNat_ofNat]; exact Nat.mod_eq_of_lt f3
+  have e23 : t23 = b1.refuses data.length := by
+    simp only [t23, t21, t22, e20n, e5n, Buffer.refuses, f5]
+  have g77 : t2 = true → t77 = true := by
+    intro h
+    rw [h2, decide_eq_true_iff] at h
+    simp only [t77, t7, toInt_ofInt8 b.hav (by omega) (by omega)]
+    have : (64#8).toInt = 64 := by decide
+    rw [this, decide_eq_true_iff]; omega
+  have g78 : t78 = true := by
+    simp only [t78, t19, t15, t13, t14, BitVec.toNat_udiv, BitVec.toNat_ofNat]
+    rw [decide_eq_true_iff]
+    split <;> simp <;> omega
+  have g79 : t79 = true := by simp only [t79, e10, decide_eq_true_iff]; omega
+  have e69 : t69 = 64 - b1.hav.toNat := by
+    simp only [t69, e10, Gen.Kernels.usizeSub]; rw [if_pos (by omega)]
+  have g80 : t80 = true := by simp only [t80, e69, decide_eq_true_iff]; omega
+  have hnp : ¬ (b1.hav < 0 ∨ b1.hav > 64) := by omega
+  simp only [g78, g79, g80, Bool.true_eq_false, and_false, if_false, hnp]
+  by_cases hr : b1.refuses data.length = true
+  · have h23 : t23 = true := by rw [e23, hr]
+    simp only [hr, if_true, Out.bind_ok, applyEnc, t26, t54, t56, t58, t60, t63, t65, t67, t76, h23, t24, e29, e31, e33,
+      e35, e9, e5]
+    have g : ¬ (p = Profile.debug ∧ t2 = true ∧ t77 = false) := by
+      intro ⟨_, a, c⟩; rw [g77 a] at c; cases c
+    simp only [g, if_false, f5, Option.isSome_none, Option.getD_none]
+  · have h23 : t23 = false := by rw [e23]; simpa using hr
+    have g : ¬ (p = Profile.debug ∧ t2 = true ∧ t77 = false) := by
+      intro ⟨_, a, c⟩; rw [g77 a] at c; cases c
+    simp only [hr, if_false, g, Out.bind_ok, applyEnc, t26, t54, t56, t58, t60, t63, t65, t67, t76, h23, t24, t25,
+      Bool.false_eq_true, Option.isSome_some, Option.getD_some]
+    -- the wide loop
+    have l39 : t39.length = t12 := by simp only [t39, List.length_drop, e11, e12]
+    have e40 : t40 = 256 * (t12 / 256) := land_mask256 t12 (by omega)
+    have l41 : t41.length = 256 * (t12 / 256) := by
+      simp only [t41, List.length_take, l39, e40]; omega
+    have e42 : t42 = (((wideLoop M dr.toNat (t12 / 256) b1.state t39).2.b, (wideLoop M dr.toNat (t12 / 256) b1.state t39).2.c,
+        (wideLoop M dr.toNat (t12 / 256) b1.state t39).2.d, b1.out, t9, t36, t38),
+        (wideLoop M dr.toNat (t12 / 256) b1.state t39).1) := by
+      simp only [t42, Gen.Kernels.forChunksExactMut, e29, e31, e33, e35]
+      rw [wide_tie M hM dr (b1.out, t9, t36, t38) (t12 / 256) t41.length b1.state t41 l41 (by omega)]
+      simp only [t41, e40, wideLoop_take]
+    -- the tail loop
+    have e52 : t52 = (((tailLoop M dr.toNat (t51.length / 64 + 1) (wideLoop M dr.toNat (t12 / 256) b1.state t39).2 t51 b1.out t50).2.1.b,
+        (tailLoop M dr.toNat (t51.length / 64 + 1) (wideLoop M dr.toNat (t12 / 256) b1.state t39).2 t51 b1.out t50).2.1.c,
+        (tailLoop M dr.toNat (t51.length / 64 + 1) (wideLoop M dr.toNat (t12 / 256) b1.state t39).2 t51 b1.out t50).2.1.d,
+        (tailLoop M dr.toNat (t51.length / 64 + 1) (wideLoop M dr.toNat (t12 / 256) b1.state t39).2 t51 b1.out t50).2.2.1,
+        t9, t36, t38,
+        (tailLoop M dr.toNat (t51.length / 64 + 1) (wideLoop M dr.toNat (t12 / 256) b1.state t39).2 t51 b1.out t50).2.2.2),
+        (tailLoop M dr.toNat (t51.length / 64 + 1) (wideLoop M dr.toNat (t12 / 256) b1.state t39).2 t51 b1.out t50).1) := by
+      simp only [t52, Gen.Kernels.forChunksMut, t43, t44, t45, t46, t47, t48, t49, e42]
+      exact tail_tie M hM dr t9 t36 t38 t51.length _ t51 b1.out t50 (t51.length / 64 + 1) (Nat.le_refl _) (by omega)
+    have e36 : t36 = BitVec.ofNat 64 (wsub64 b1.len (blocksNeeded b1.hav.toNat data.length)) := by
+      simp only [t36, e5, e20]; rw [wsub64_ofNat _ _ f3]
+    have e38 : t38 = (b1.fresh && blocksNeeded b1.hav.toNat data.length == 0) := by
+      simp only [t38, t37, t17, e20, f5]
+      rw [ofNat64_beq_zero _ (by omega)]
+    have e71 : t71 = xorBytes (data.take (min b1.hav.toNat data.length)) (b1.out.drop (64 - b1.hav.toNat)) := by
+      simp only [t71, t68, t70, e69, e35, e11]
+      apply xorInto_eq_xorBytes
+      simp only [List.length_take, List.length_drop, f4]; omega
+    simp only [t53, t55, t57, t59, t62, t61, t64, t66, t75, t74, t72, t73, e52, e42, e71, e36, e38, Buffer.applyBody,
+      BitVec.ofInt_natCast, List.append_assoc]
+    have e39 : t39 = List.drop (min b1.hav.toNat data.length) data := by simp only [t39, e11]
+    have e12' : t12 = (List.drop (min b1.hav.toNat data.length) data).length := by rw [← e39, l39]
+    have e50 : t50 = b1.hav.toNat - min b1.hav.toNat data.length := by simp only [t50, e10, e11]
+    have e51 : t51 = List.drop (256 * ((List.drop (min b1.hav.toNat data.length) data).length / 256))
+        (List.drop (min b1.hav.toNat data.length) data) := by
+      simp only [t51, e40, e12', e39]
+    rw [e51, e50, e12', e39]
+
+theorem tryApply_ok (M : Mach) (hM : BlockLens M) (p : Profile) (dr : Nat) (b : Buffer)
+    (hb1 : -64 < b.hav) (hb2 : b.hav ≤ 64) (hb3 : b.len < 2 ^ 64) (hb4 : b.out.length = 64) (data : List (BitVec 8)) :
+    ∃ r, Buffer.tryApply M p dr b data = .ok r := by
+  rw [Buffer.tryApply_eq]
+  obtain ⟨f1, f2, _, _, _⟩ := lazyFill_facts M hM dr b hb1 hb2 hb3 hb4
+  have hnp : ¬ ((b.lazyFill M dr).hav < 0 ∨ (b.lazyFill M dr).hav > 64) := by omega
+  simp only [hnp, if_false]
+  split <;> exact ⟨_, rfl⟩
+
+/-! ### `ChaChaAny::try_apply_keystream` (the IETF variant saves and restores nonce word 13) -/
+
+theorem src_chacha_any_try_apply_keystream_8 (M : Mach) (hM : BlockLens M) (p : Profile) (c : Cipher)
+    (hl : c.v.layout ≠ .ietf) (dr : BitVec 32) (hdr : c.v.drounds = dr.toNat)
+    (hb1 : -64 < c.buf.hav) (hb2 : c.buf.hav ≤ 64) (hb3 : c.buf.len < 2 ^ 64) (hb4 : c.buf.out.length = 64)
+    (data : List (BitVec 8)) (hd : data.length < 2 ^ 63) :
+    Gen.Kernels.chacha_any_try_apply_keystream_8 M p c.buf.state.b c.buf.state.c c.buf.state.d c.buf.out
+        (BitVec.ofInt 8 c.buf.hav) (BitVec.ofNat 64 c.buf.len) c.buf.fresh data dr
+      = (Cipher.tryApply M p c data >>= fun r => .ok (applyEnc data (r.1.buf, r.2))) := by
+  unfold Gen.Kernels.chacha_any_try_apply_keystream_8
+  rw [src_chacha_buffer_try_apply_keystream M hM p dr c.buf hb1 hb2 hb3 hb4 data hd]
+  have hT : Cipher.tryApply M p c data =
+      (Buffer.tryApply M p dr.toNat c.buf data >>= fun r => .ok ({ c with buf := r.1 }, r.2)) := by
+    unfold Cipher.tryApply
+    rw [hdr]
+    cases h : c.v.layout <;> first | exact absurd h hl | (cases Buffer.tryApply M p dr.toNat c.buf data <;> rfl)
+  rw [hT]
+  obtain ⟨r, hr⟩ := tryApply_ok M hM p dr.toNat c.buf hb1 hb2 hb3 hb4 data
+  rw [hr]
+  rfl
+
+theorem src_chacha_any_try_apply_keystream_24 (M : Mach) (hM : BlockLens M) (p : Profile) (c : Cipher)
+    (hl : c.v.layout ≠ .ietf) (dr : BitVec 32) (hdr : c.v.drounds = dr.toNat)
+    (hb1 : -64 < c.buf.hav) (hb2 : c.buf.hav ≤ 64) (hb3 : c.buf.len < 2 ^ 64) (hb4 : c.buf.out.length = 64)
+    (data : List (BitVec 8)) (hd : data.length < 2 ^ 63) :
+    Gen.Kernels.chacha_any_try_apply_keystream_24 M p c.buf.state.b c.buf.state.c c.buf.state.d c.buf.out
+        (BitVec.ofInt 8 c.buf.hav) (BitVec.ofNat 64 c.buf.len) c.buf.fresh data dr
+      = (Cipher.tryApply M p c data >>= fun r => .ok (applyEnc data (r.1.buf, r.2))) :=
+  src_chacha_any_try_apply_keystream_8 M hM p c hl dr hdr hb1 hb2 hb3 hb4 data hd
+
+/-- `get_stream_param(0) >> 32`, `get_stream_param(0) & 0xffff_ffff`, `set_stream_param(0, (nonce0 << 32) | ctr)`
+    on the lanes of `d`: the low word comes from the new state, the high word is the saved one -/
+theorem nonce_restore_words (x0 x1 y0 y1 : BitVec 32) :
+    let g := fun (a1 a0 : BitVec 32) => (BitVec.setWidth 64 a1 <<< 32) ||| BitVec.setWidth 64 a0
+    let v := ((g x1 x0 >>> 32) <<< 32) ||| (g y1 y0 &&& 0x00000000ffffffff#64)
+    BitVec.setWidth 32 v = y0 ∧ BitVec.setWidth 32 (v >>> 32) = x1 := by
+  intro g v
+  constructor <;> (simp only [v, g]; bv_decide)
+
+theorem src_chacha_any_try_apply_keystream_12 (M : Mach) (hM : BlockLens M) (p : Profile) (c : Cipher)
+    (hl : c.v.layout = .ietf) (dr : BitVec 32) (hdr : c.v.drounds = dr.toNat)
+    (hb1 : -64 < c.buf.hav) (hb2 : c.buf.hav ≤ 64) (hb3 : c.buf.len < 2 ^ 64) (hb4 : c.buf.out.length = 64)
+    (data : List (BitVec 8)) (hd : data.length < 2 ^ 63) :
+    Gen.Kernels.chacha_any_try_apply_keystream_12 M p c.buf.state.b c.buf.state.c c.buf.state.d c.buf.out
+        (BitVec.ofInt 8 c.buf.hav) (BitVec.ofNat 64 c.buf.len) c.buf.fresh data dr
+      = (Cipher.tryApply M p c data >>= fun r => .ok (applyEnc data (r.1.buf, r.2))) := by
+  unfold Gen.Kernels.chacha_any_try_apply_keystream_12
+  rw [src_chacha_buffer_try_apply_keystream M hM p dr c.buf hb1 hb2 hb3 hb4 data hd]
+  obtain ⟨r, hr⟩ := tryApply_ok M hM p dr.toNat c.buf hb1 hb2 hb3 hb4 data
+  have hT : Cipher.tryApply M p c data =
+      .ok ({ c with buf := { r.1 with state := { r.1.state with
+              d := pack32 (lane32 r.1.state.d 0) (lane32 c.buf.state.d 1) (lane32 r.1.state.d 2) (lane32 r.1.state.d 3) } } },
+           r.2) := by
+    unfold Cipher.tryApply
+    rw [hdr, hl]
+    simp only [hr]
+  rw [hT, hr]
+  obtain ⟨w0, w1⟩ := nonce_restore_words (lane32 c.buf.state.d 0) (lane32 c.buf.state.d 1)
+    (lane32 r.1.state.d 0) (lane32 r.1.state.d 1)
+  simp only [Out.bind_ok, Gen.Kernels.outGet, Gen.Kernels.outOk, applyEnc, Bool.true_eq_false, if_false] at w0 w1 ⊢
+  rw [w0, w1]
+
+/-! ### the trait impls forward to the inherent functions; struct declarations -/
+
+theorem src_chacha_newcipher_new_8 : Gen.Kernels.chacha_newcipher_new_8 = Gen.Kernels.chacha_any_new_8 := rfl
+theorem src_chacha_newcipher_new_12 : Gen.Kernels.chacha_newcipher_new_12 = Gen.Kernels.chacha_any_new_12 := rfl
+theorem src_chacha_newcipher_new_x : Gen.Kernels.chacha_newcipher_new_x = Gen.Kernels.chacha_any_new_x := rfl
+
+/-- `StreamCipher::try_apply_keystream` = the inherent `try_apply_keystream` (`map_err` keeps the flag) -/
+theorem src_chacha_streamcipher_try_apply_keystream_12 (M : Mach) (p : Profile) (b c d : BitVec 128)
+    (out : List (BitVec 8)) (hv : BitVec 8) (len : BitVec 64) (fresh : Bool) (data : List (BitVec 8)) (dr : BitVec 32) :
+    noMsg (Gen.Kernels.chacha_streamcipher_try_apply_keystream_12 M p b c d out hv len fresh data dr)
+      = noMsg (Gen.Kernels.chacha_any_try_apply_keystream_12 M p b c d out hv len fresh data dr >>= fun r => .ok r) := by
+  unfold Gen.Kernels.chacha_streamcipher_try_apply_keystream_12
+  cases hc : Gen.Kernels.chacha_any_try_apply_keystream_12 M p b c d out hv len fresh data dr with
+  | ok r => rfl
+  | panic w => rfl
+  | err =>
+    exfalso
+    unfold Gen.Kernels.chacha_any_try_apply_keystream_12 at hc
+    simp only [] at hc
+    repeat' split at hc
+    all_goals cases hc
+
+theorem src_chacha_streamcipher_try_apply_keystream_8 (M : Mach) (p : Profile) (b c d : BitVec 128)
+    (out : List (BitVec 8)) (hv : BitVec 8) (len : BitVec 64) (fresh : Bool) (data : List (BitVec 8)) (dr : BitVec 32) :
+    noMsg (Gen.Kernels.chacha_streamcipher_try_apply_keystream_8 M p b c d out hv len fresh data dr)
+      = noMsg (Gen.Kernels.chacha_any_try_apply_keystream_8 M p b c d out hv len fresh data dr >>= fun r => .ok r) := by
+  unfold Gen.Kernels.chacha_streamcipher_try_apply_keystream_8
+  cases hc : Gen.Kernels.chacha_any_try_apply_keystream_8 M p b c d out hv len fresh data dr with
+  | ok r => rfl
+  | panic w => rfl
+  | err =>
+    exfalso
+    unfold Gen.Kernels.chacha_any_try_apply_keystream_8 at hc
+    simp only [] at hc
+    repeat' split at hc
+    all_goals cases hc
+
+theorem src_chacha_streamcipher_try_apply_keystream_24 (M : Mach) (p : Profile) (b c d : BitVec 128)
+    (out : List (BitVec 8)) (hv : BitVec 8) (len : BitVec 64) (fresh : Bool) (data : List (BitVec 8)) (dr : BitVec 32) :
+    noMsg (Gen.Kernels.chacha_streamcipher_try_apply_keystream_24 M p b c d out hv len fresh data dr)
+      = noMsg (Gen.Kernels.chacha_any_try_apply_keystream_24 M p b c d out hv len fresh data dr >>= fun r => .ok r) := by
+  unfold Gen.Kernels.chacha_streamcipher_try_apply_keystream_24
+  cases hc : Gen.Kernels.chacha_any_try_apply_keystream_24 M p b c d out hv len fresh data dr with
+  | ok r => rfl
+  | panic w => rfl
+  | err =>
+    exfalso
+    unfold Gen.Kernels.chacha_any_try_apply_keystream_24 at hc
+    simp only [] at hc
+    repeat' split at hc
+    all_goals cases hc
+
+/-- the structs of rustcrypto_impl.rs / guts.rs: `Buffer` (model `CC.ChaCha.Buffer`: state, out, hav, len, fresh),
+    `ChaChaAny` (model `Cipher`: the buffer; the other fields are zero-sized markers), `ChaCha` (model `Guts`: b, c, d).
+    `Clone` is DERIVED everywhere (field-wise copy: the model's `clone` is the identity on the value); there is no
+    hand-written `Clone` / `Drop` (the translator fails loudly on one) -/
+theorem src_chacha_structs :
+    Gen.Kernels.chacha_structs =
+      [("Buffer", "struct", ["state", "out", "have", "len", "fresh"], ["Clone"], []),
+       ("ChaChaAny", "struct", ["state", "_nonce_size", "_rounds", "_is_x"], ["Clone"], []),
+       ("X", "struct", [], ["Default"], []),
+       ("O", "struct", [], ["Default"], []),
+       ("ChaCha", "struct", ["b", "c", "d"], ["Clone", "Eq", "PartialEq"], [])] := rfl
+
+/-- the trait impls of `ChaChaAny` and the functions each defines (a new override of a provided method shows up here) -/
+theorem src_chacha_trait_impls :
+    Gen.Kernels.chacha_trait_impls =
+      [("ChaChaAny", "NewCipher", ["new"]), ("ChaChaAny", "NewCipher", ["new"]),
+       ("ChaChaAny", "StreamCipherSeek", ["try_current_pos", "try_seek"]),
+       ("ChaChaAny", "StreamCipher", ["try_apply_keystream"])] := rfl
+
+/-- the reference machine (hence every backend, `CC.Thm.C03.backend_eq_ref`) produces blocks of the right lengths -/
+theorem blockLens_ref : BlockLens Mach.ref where
+  refill := by intro s dr; rw [refill_adv]; exact blockAt_length dr s
+  refill4 := by intro s dr; rw [refill4_adv]; simp [blockAt_length]
 
 end CC.Src
